@@ -62,8 +62,8 @@ ASSUMPTIONS = [
     "cluster ids handed to initiate_join() are ClusterId values 0..255 (they come from received cluster VAMs); other "
     "integers are accepted by the code and make the individual VAMs unencodable for the 3 s + 1 s of the notices - "
     "compared with the model, emission tie skipped",
-    "fix C18-F6 (fixes/C18-6-leave-notice-before-cancelled-join.diff) is part of the code under test; on a tree without "
-    "it the model runs in its `cancelHidesLeave` variant and the oracle reports leave-notification-cut-short",
+    "fix C18-F6 (fixes/C18-6-leave-notice-before-cancelled-join.diff, commit 1ed843d) is part of the code under test; on a "
+    "tree without it the model runs in its `cancelHidesLeave` variant and the oracle reports leave-notification-cut-short",
     "known finding C18-KF1: a break-up announced with reason receptionOfCpmContainingCluster leaves members passive "
     "(deliberate reading of clause 5.4.2.2); they are released by the leader-lost timer once cluster VAMs stop",
     "becoming idle (role off) ends every notification; a cluster cannot be created while a join/leave notification runs",
